@@ -403,6 +403,14 @@ var reqHop = [][]px.H{
 	{{K: "Connection", V: "X-One"}, {K: "Connection", V: "X-Two"}, {K: "X-One", V: "1"}, {K: "X-Two", V: "2"}},
 }
 
+var reqRangeGroups = [][]px.H{
+	{{K: "Range", V: "bytes=0-3,10-13"}, {K: "If-Range", V: `"etag-the-client-has"`}},
+	{{K: "Range", V: "BYTES=0-3"}, {K: "If-Range", V: "Mon, 02 Jan 2006 15:04:05 GMT"}},
+	{{K: "Range", V: "items=0-3"}, {K: "If-Range", V: `"v7"`}},
+	{{K: "If-Range", V: `"guard-without-range"`}},
+	{{K: "Range", V: "bytes=0-3,10-13"}},
+}
+
 var respPool = []hdrSpec{
 	{"Set-Cookie", []string{"a=1; Path=/", "b=2; HttpOnly", "c=3", "d=4; Max-Age=5"}},
 	{"Link", []string{"</a>; rel=preload", "</b>; rel=next"}},
@@ -493,6 +501,12 @@ func drawCase(t *rapid.T) Case {
 			}
 		}
 		c.RespHeaders = hs
+	}
+	// range requests the proxy does not answer itself (several ranges, another unit, an upper-case unit) and
+	// their If-Range guard are end-to-end fields like any other: both reach the origin, or an origin whose
+	// content changed answers a 206 it was told not to send
+	if !c.Via416 && !c.RangeFirst && rapid.IntRange(0, 5).Draw(t, "req_range_group") == 0 {
+		c.ReqHeaders = append(c.ReqHeaders, rapid.SampledFrom(reqRangeGroups).Draw(t, "req_range_set")...)
 	}
 	return c
 }
